@@ -162,6 +162,9 @@ structure JudgeSt where
   scripts : Scripts := []
   obs : List Obs := []
   bad : Option String := none
+  ob : Option (Observe.Cfg × C01.Lvl) := none
+  charged : List Nat := []        -- ghost: requests the quota counted within the limit and that have not asked since
+  lost : Option String := none    -- F18i: a counted request refused after another request restarted the window
 
 def judgeStep (s : JudgeSt) (op out : String) : JudgeSt :=
   match words op with
@@ -200,8 +203,28 @@ def judgeStep (s : JudgeSt) (op out : String) : JudgeSt :=
         else { s with bad := some ("registered-key-never-vacuumed:" ++ pctEnc out) }
       else { s with bad := some ("unparsable-vacuum-answer:" ++ pctEnc out) }
     | none => { s with bad := some "unparsable-vacuum-op" }
+  | "ocfg" :: r =>
+    match kvNat r "max", kvNat r "win" with
+    | some mx, some w => { s with ob := some (⟨mx, w * C01.nsPerSec⟩, C01.Lvl.init) }
+    | _, _ => { s with bad := some "unparsable-observe-cfg" }
+  | "oread" :: _ => s
   | "oinc" :: _ | "oallow" :: _ | "odec" :: _ =>
-    if Observe.agrees out then s else { s with bad := some ("metrics-read-changed-a-transactions-answer:" ++ pctEnc out) }
+    if !Observe.agrees out then { s with bad := some ("metrics-read-changed-a-transactions-answer:" ++ pctEnc out) } else
+    match s.ob, parseO (words op) with
+    | some (c, l), some o =>
+      -- the model state is used for the ghost list `charged` and to classify a refusal, never as the expected answer
+      let s1 := { s with ob := some (c, (Observe.step c l o).1) }
+      match o with
+      | .inc r t => if Observe.counted c l r t then { s1 with charged := r :: s1.charged } else s1
+      | .dec r => { s1 with charged := s1.charged.filter (· != r) }
+      | .allowed r =>
+        let s2 := { s1 with charged := s1.charged.filter (· != r) }
+        if Observe.admittedWhenCounted s.charged r out then s2
+        else if (Observe.step c l o).2 == .verdict false then
+          { s2 with lost := some ("counted-transaction-refused-after-another-transactions-window-restart:r=" ++ toString r) }
+        else { s2 with bad := some ("counted-transaction-refused:r=" ++ toString r ++ ":" ++ pctEnc out) }
+      | .read => s1
+    | _, _ => { s with bad := some "unparsable-observe-op" }
   | "overlap" :: _ => if out == "held=same inner=same" then s else { s with bad := some ("transaction-left-with-another-transactions-actions:" ++ pctEnc out) }
   | "retain-conc" :: _ => if out == "stable" then s else { s with bad := some ("lookup-answer-changed-by-another-transaction:" ++ pctEnc out) }
   | "retain" :: _ => if out == "stable" then s else { s with bad := some ("lookup-answer-changed-by-another-transaction:" ++ pctEnc out) }
@@ -217,6 +240,7 @@ def judgeFinish (s : JudgeSt) : String :=
   match s.bad with
   | some b => s!"fail - {b}"
   | none =>
+    if let some m := s.lost then s!"fail F18i {m}" else
     if !isolated (s.obs.map (toEv s.scripts)) then
       "fail F18a transactional-context-not-private-to-the-transaction"
     else
